@@ -88,6 +88,7 @@ func C14(ctx *core.Ctx, r *core.Report) {
 	c14WorklistGuard(ctx, r)
 	c14EveryBaseCompiled(ctx, r)
 	c14LexerPosInBounds(ctx, r)
+	c14PoolCoversEveryHolder(ctx, r)
 	c14TokenizerSetsAgree(ctx, r)
 	c14ImportRememberedAsAsked(ctx, r)
 	c14SingleDefaultGuard(ctx, r)
